@@ -187,7 +187,7 @@ func (g *srvGen) variant(r2 *rand.Rand) int {
 		}
 	}
 	if r2.Intn(2) == 0 {
-		return 1 + r2.Intn(2)
+		return 1 + r2.Intn(3)
 	}
 	return 0
 }
@@ -227,7 +227,7 @@ type srvRun struct {
 	rounds []roundObs
 	cancel context.CancelFunc
 	maxBusy time.Duration
-	noise   int // ARP traffic that is no answer to a probe: 1 runt frames, 2 answers about other hosts
+	noise   int // ARP traffic that is no answer to a probe: 1 runt frames, 2 answers about other hosts, 3 probes by others for the same address
 }
 
 func (s *srvRun) rel() uint64 { return uint64(time.Since(s.start)) }
@@ -248,6 +248,11 @@ func startServer(t *testing.T, cfg srvCfg) (*srvRun, error) {
 			runt := make([]byte, []int{1, 10, 27}[int(target)%3])
 			copy(runt, []byte{0, 1, 8, 0, 6, 4, 0, 2})
 			time.AfterFunc(time.Millisecond, func() { s.seg.Inject(rsocks.KindARP, runt) })
+		case 3: // somebody else probing for the same address (sender address 0.0.0.0): not an answer, nobody owns it yet
+			probe := make([]byte, 28)
+			copy(probe, []byte{0, 1, 8, 0, 6, 4, 0, 1, 2, 0xdd, 0, 0, 0, 7})
+			binary.BigEndian.PutUint32(probe[24:], target)
+			time.AfterFunc(time.Millisecond, func() { s.seg.Inject(rsocks.KindARP, probe) })
 		case 2:
 			other := make([]byte, 28)
 			copy(other, []byte{0, 1, 8, 0, 6, 4, 0, 2, 2, 0xdd, 0, 0, 0, 9})
@@ -716,6 +721,10 @@ func (g *srvGen) next() ([]byte, []arpResp, *simClient, byte) {
 	proto, dport := byte(17), uint16(67)
 	if r.Intn(40) == 0 {
 		proto = 6 // not UDP: must be ignored
+	}
+	if g.r2 != nil && kind == 3 && g.r2.Intn(3) == 0 {
+		// a REQUEST with a lease-time wish below what the server grants
+		m.opts = append(m.opts, wopt{51, u32b([]uint32{1, 5, 30, 59, uint32(c.lease/time.Second) / 2}[g.r2.Intn(5)])})
 	}
 	if g.r2 != nil && g.r2.Intn(2) == 0 {
 		// wishes and information a client may add, none of which changes what the server has to do: a lease-time wish
